@@ -15,7 +15,7 @@ ID = 'C07'
 MANIFEST = {
     'engine': 'symx',
     'text': 'Inductive-step bounded model checking of the real prior_combinations_sample source: the global counter starts in an ARBITRARY state satisfying the invariant max-min<=1 over a duplicate-free candidate list (symbolic counts; or empty = base case), the cap is symbolic (so it may change between batches), one call runs, and z3 shows on every path: len(out)=min(cap,m), distinct members of the list, every selected pre-count <= every unselected one, counter +1 exactly on the selected, invariant restored. One step from every invariant state covers batch sequences of any length.',
-    'note': 'Candidate lists of m<=5 (quick) / m<=7 (thorough) entries; counts in [0,4]; lists with duplicates and lists sharing keys in the one global counter are outside (the statement says stable duplicate-free list). The export clause (returned/exported counts = selections) is explored through the real streaming loop incl. the tail batch (condition export; the JSON file itself in C08).',
+    'note': 'Candidate lists of m<=5 (quick) / m<=7 (thorough) entries; counts in [0,4]; the process-global counter may also hold a foreign key of another candidate list; lists with duplicates are outside (the statement says stable duplicate-free list). The export clause (returned/exported counts = selections) is explored through the real streaming loop incl. the tail batch (condition export; the JSON file itself in C08).',
     'technique': 'symbolic execution of the real Python source with z3 from an arbitrary invariant pre-state (k-induction, k=1)',
 }
 
@@ -37,7 +37,7 @@ def load_fn():
 
 
 def jobs(tier):
-    out = [{'cond': 'export', 'pins': {}, 'weight': 50, 'label': 'export'}]
+    out = [{'cond': 'export', 'pins': {}, 'weight': 50, 'label': 'export'}, {'cond': 'large-cap', 'pins': {}, 'weight': 60, 'label': 'large-cap'}]
     for m in BOUNDS[tier]:
         for fresh in (False, True):
             if m >= 6 and not fresh:
@@ -76,6 +76,37 @@ def run_export(job):
     return hutil.run_symx(job, setup, body)
 
 
+def run_largecap(job):
+    """the cap around the module's own constant MAX_FEATURES_3MR with a candidate list longer than it: exactly min(cap, m) selected"""
+    import ast as _ast
+    src = open(loader.repo_path('outrank/core_ranking.py')).read()
+    MAXC = 10 ** 4
+    for n in _ast.parse(src).body:
+        if isinstance(n, _ast.Assign) and getattr(n.targets[0], 'id', '') == 'MAX_FEATURES_3MR':
+            MAXC = eval(compile(_ast.Expression(n.value), '<const>', 'eval'))
+    ns = load_fn()
+    f, G = ns['prior_combinations_sample'], ns['GLOBAL_PRIOR_COMB_COUNTS']
+    m = MAXC + 50
+    C = [(f'f{i}', 'label') for i in range(m)]
+    st = {}
+
+    def setup(ctx):
+        st['cap'] = z3.Int('cap')
+        ctx.assume(st['cap'] >= MAXC - 2, st['cap'] <= MAXC + 52)
+
+    def body(ctx, out):
+        G.clear()
+        cap = int(SInt(st['cap'], MAXC - 2, MAXC + 52))
+        res = f(list(C), types.SimpleNamespace(combination_number_upper_bound=cap, heuristic='MI-numba-randomized'))
+        ok = len(res) == min(cap, m) and len(set(res)) == len(res) and sum(G.values()) == len(res)
+        if ok and not out.twin:
+            out.concrete_ok()
+        else:
+            out.concrete_fail({'cond': 'large-cap', 'm': m, 'cap': cap}, f'{len(res)} candidates selected with cap {cap} out of {m}')
+        out.sample({'candidates': m, 'cap': cap, 'selected': len(res)})
+    return hutil.run_symx(job, setup, body)
+
+
 def cands(m):
     return [(f'f{i}', f'g{i}') for i in range(m)]
 
@@ -83,6 +114,8 @@ def cands(m):
 def run_job(job):
     if job['cond'] == 'export':
         return run_export(job)
+    if job['cond'] == 'large-cap':
+        return run_largecap(job)
     m, fresh = job['m'], job['fresh']
     ns = load_fn()
     f = ns['prior_combinations_sample']
@@ -99,6 +132,9 @@ def run_job(job):
                 ctx.assume(a - b <= 1)
         st['cap'] = z3.Int('cap')
         ctx.assume(st['cap'] >= 0, st['cap'] <= m + 1)
+        # the counter is process-global: it may already hold counts of OTHER candidate lists (e.g. interaction tuples)
+        st['foreign'] = z3.Int('foreign')
+        ctx.assume(st['foreign'] >= -1, st['foreign'] <= CMAX)
         for k, v in job['pins'].items():
             ctx.assume(z3.Int(k) == v)
         if fresh:
@@ -107,10 +143,13 @@ def run_job(job):
 
     def wit(mdl):
         return {'cond': 'step', 'm': m, 'fresh': fresh, 'counts': [mdl.eval(v, model_completion=True).as_long() for v in st['c']],
-                'cap': mdl.eval(st['cap'], model_completion=True).as_long()}
+                'cap': mdl.eval(st['cap'], model_completion=True).as_long(), 'foreign': mdl.eval(st['foreign'], model_completion=True).as_long()}
 
     def body(ctx, out):
         G.clear()
+        fo = SInt(st['foreign'], -1, CMAX)
+        if bool(fo >= 0):
+            G[('other', 'list')] = fo
         if not fresh:
             for k, v in zip(C, st['c']):
                 G[k] = SInt(v, 0, CMAX)
@@ -129,7 +168,9 @@ def run_job(job):
                 for u in unsel:
                     bad.append(pre[s] > pre[u])
             post = {k: symx.zint(G[k]) if k in G else None for k in C}
-            bad.append(z3.BoolVal(any(v is None for v in post.values()) or set(G.keys()) != set(C)))
+            bad.append(z3.BoolVal(any(v is None for v in post.values()) or set(G.keys()) - {('other', 'list')} != set(C)))
+            if ('other', 'list') in G:
+                bad.append(symx.zint(G[('other', 'list')]) != st['foreign'])
             if all(v is not None for v in post.values()):
                 for k in C:
                     bad.append(post[k] != pre[k] + (1 if k in sel else 0))
@@ -144,6 +185,14 @@ def run_job(job):
 def replay(w):
     loader.use_repo_on_syspath()
     import outrank.core_ranking as cr
+    if w['cond'] == 'large-cap':
+        C = [(f'f{i}', 'label') for i in range(w['m'])]
+        cr.GLOBAL_PRIOR_COMB_COUNTS.clear()
+        res = cr.prior_combinations_sample(list(C), types.SimpleNamespace(combination_number_upper_bound=w['cap'], heuristic='MI-numba-randomized'))
+        cr.GLOBAL_PRIOR_COMB_COUNTS.clear()
+        if len(res) != min(w['cap'], w['m']):
+            return {'reproduced': True, 'signature': 'C07:large-cap', 'what': f'{w["m"]} candidates, cap {w["cap"]}: {len(res)} selected instead of {min(w["cap"], w["m"])}'}
+        return {'reproduced': False, 'what': 'min(cap, m) selected'}
     if w['cond'] == 'export':
         from harness import C08
         from harness import pipeline as PL
@@ -156,6 +205,8 @@ def replay(w):
         return {'reproduced': False, 'what': 'counts equal selections'}
     C = cands(w['m'])
     cr.GLOBAL_PRIOR_COMB_COUNTS.clear()
+    if w.get('foreign', -1) >= 0:
+        cr.GLOBAL_PRIOR_COMB_COUNTS[('other', 'list')] = w['foreign']
     if not w['fresh']:
         for k, v in zip(C, w['counts']):
             cr.GLOBAL_PRIOR_COMB_COUNTS[k] = v
@@ -163,6 +214,7 @@ def replay(w):
     cap = w['cap']
     res = cr.prior_combinations_sample(list(C), types.SimpleNamespace(combination_number_upper_bound=cap))
     post = dict(cr.GLOBAL_PRIOR_COMB_COUNTS)
+    post.pop(('other', 'list'), None)
     cr.GLOBAL_PRIOR_COMB_COUNTS.clear()
     probs = []
     if len(res) != min(cap, len(C)):
@@ -175,7 +227,7 @@ def replay(w):
             probs.append('a more-evaluated candidate was preferred to a less-evaluated one')
         if any(post.get(k) != pre[k] + (1 if k in res else 0) for k in C):
             probs.append('counter does not equal pre-count + 1 exactly on the selected candidates')
-        if post and max(post.values()) - min(post.values()) > 1:
+        if len(post) == len(C) and max(post.values()) - min(post.values()) > 1:
             probs.append('evaluation counts differ by more than one afterwards')
     if probs:
         return {'reproduced': True, 'signature': 'C07:step', 'what': f'pre-counts {w["counts"]}, cap {cap}: ' + '; '.join(probs), 'detail': {'selected': [list(r) for r in res]}}
